@@ -188,6 +188,31 @@ CHECKS = {
              "specification has one (or encode returns Err).",
         note=TLC_BASE + "; one record; widths beyond 10^6 are constructed but not encoded; marker wording not compared",
         design="7/C11"),
+    "C09": dict(
+        category="model_checking",
+        technique="TLA+ spec (Pattern.tla + MC_PatternGrammar.tla: token grammar with a parser-independent denotation) "
+                  "model-checked by TLC (GrammarAgrees); every well-formed pattern replayed on the real encoder",
+        text="Well-formed patterns are generated as sequences of grammar tokens (literal chunks, doubled and backslash "
+             "escapes, every formatter with both aliases and width specs, MDC hit/miss/default, date formats and zones, "
+             "unnamed / highlight / debug / release groups with closing width specs, nesting depth 2), each token with "
+             "its spelling and its meaning; TLC checks that the transcribed parser + chunk table applied to the spelling "
+             "yields exactly the concatenated meanings. Every pattern is then encoded by the real PatternEncoder for "
+             "three records into a writer that captures bytes and style requests in line, and compared token by token.",
+        note=TLC_BASE + "; process / thread ids and strftime output are opaque atoms; colours not compared; dev profile "
+             "in the quick tier, release profile for {R(..)} in the thorough tier",
+        design="7/C09"),
+    "C10": dict(
+        category="model_checking",
+        technique="TLA+ spec (WidthWriters.tla: the three streaming writers transcribed) model-checked by TLC over "
+                  "texts x chunkings x width specs x sink acceptance scripts; every case replayed through the public API",
+        text="WidthWriters.tla transcribes MaxWidthWriter, LeftAlignWriter and RightAlignWriter on byte classes and "
+             "composes them as Chunk::encode does; TLC checks WidthLaw (= cut to max characters then pad to min), "
+             "AtMostM and Utf8Whole for every text of the bound, every character-boundary chunking of the producer and "
+             "every acceptance script of the sink (partial writes). Each case is replayed: the message is a Display "
+             "writing the pieces one by one, the capturing encode::Write accepts bytes per the script; the output must "
+             "be valid UTF-8, at most max characters and equal to the law's text.",
+        note=TLC_BASE + "; min <= max for the exact law, only the bound for min > max",
+        design="7/C10"),
 }
 
 NOT_YET = "check not built yet in this round (planned, see DESIGN.md section 7)"
